@@ -42,6 +42,9 @@ CURATED = {
     "s24_blanket_except": {"nodes": [{"k": "step", "dur": 0.3, "caught": "all"}, {"k": "step", "dur": 0.25, "caught": "all"},
                                      {"k": "child", "caught": "all", "body": [{"k": "step", "dur": 0.3}]},
                                      {"k": "wfc", "polls": 1, "caught": "all"}]},
+    "s25_sync_start_behind_async": {"nodes": [{"k": "child", "body": [{"k": "wait"}, {"k": "step"}]},
+                                              {"k": "child", "body": [{"k": "cb", "between": []}, {"k": "step", "sem": "AMO"}]},
+                                              {"k": "child", "body": [{"k": "invoke"}]}]},
     "s20_handler_raises": {"nodes": [{"k": "step"}, {"k": "wait"}], "final_raise": True},
 }
 
@@ -194,6 +197,8 @@ def gen_scenario(rng: random.Random, prog, *, crash=0.5, faults=0.0, paging=0.5,
                                                              "notfound404", "conflict409"])}
     if rng.random() < paging:
         sc["paging"] = "random"
+    if rng.random() < paging * 0.6:
+        sc["resp_page"] = rng.choice([0, 1, 1, 2])      # checkpoint RESPONSES are paginated too (inline page + NextMarker)
     if rng.random() < pct:
         sc["strategy"] = "pct"
     ext = {}
@@ -201,6 +206,8 @@ def gen_scenario(rng: random.Random, prog, *, crash=0.5, faults=0.0, paging=0.5,
         if rng.random() < ext_fail:
             outs = ["FAILED", "TIMED_OUT", "STOPPED"] + (["CANCELLED"] if kind == "cb" else [])
             ext[p] = [rng.choice(outs), "boom-" + p]
+        elif kind == "cb" and rng.random() < 0.35:
+            ext[p] = ["SUCCEEDED", rng.choice(["", "0", "null", " ", "false"])]     # payloads that are falsy / look like JSON
     if ext:
         sc["ext"] = ext
     sc["api_latency"] = rng.choice([0.0, 0.0, 0.05, 0.3])
